@@ -44,10 +44,19 @@ def make_rbm(cfg, env, rng, scale=1.0):
     return rbm
 
 
-def native_check(cfg, env=None, seed=0):
+def native_check(cfg, env=None, seed=0, warm=False):
     rng = np.random.default_rng(seed)
     pur = cfg["rbm"] == "purification"
     rbm = make_rbm(cfg, env, rng)
+    if warm:
+        # history: the object has already sampled with other parameters; they are then replaced through .data
+        v0 = torch.tensor(rng.integers(0, 2, size=(5, cfg["nv"])), dtype=torch.double)
+        rbm.gibbs_steps(2, v0)
+        for n_, p_ in rbm.named_parameters():
+            p_.data = torch.tensor(rng.normal(0, 1.0, size=tuple(p_.shape)), dtype=torch.double)
+        rbm.gibbs_steps(1, v0)
+        for n_, p_ in rbm.named_parameters():
+            p_.data *= 1.5
     par = C.np_params(rbm)
     vs, hs, T = _joint(par, pur)
     fails = []
@@ -136,6 +145,8 @@ def replay(cfg, env):
         if fails:
             break
     if not fails:
+        fails, _ = native_check(cfg, None, 5, warm=True)
+    if not fails:
         # kernel-level obligations (draw order, which state a conditional is taken of): compare the
         # empirical k-step law of the real sampler with K^k built from the exact conditionals
         for k in (1, 2):
@@ -157,6 +168,10 @@ def bounded(tier, seed):
         n += 1
         if f:
             bad.append((c, f[:2]))
+        f, _ = native_check(c, None, seed + 1, warm=True)
+        n += 1
+        if f:
+            bad.append((c, [("after earlier sampling and a parameter change through .data: %s" % (f[0][0],), f[0][1])]))
         for k in (1, 3):
             dev, eps = law_test(c, seed + k, k=k, chains=20000 if tier == "quick" else 100000)
             laws.append({"cfg": c, "k": k, "max_dev": round(dev, 5), "hoeffding_eps(1e-9)": round(eps, 5)})
